@@ -107,6 +107,12 @@ CHECKS["C16"] = dict(
    note='''Trusted: Lean kernel + Mathlib, standard axioms, model driver, harness. ''' + "PARTIAL: the erf-family clause (positive multiple of the least-squares fit of the documented target) is decided by an independent floating-point recomputation (scipy.special.erf, DCT formula), i.e. explored with an independent oracle, not proved; the a-priori Jacobi-Anger / Childs-Kothari-Somma bounds for all (tau, eps) at once need Bessel functions (absent from Mathlib) - accuracy is certified per instance over the continuum instead.",
    technique="Lean 4 proven accuracy certificates over the continuum (cos/sin/1/x) + independent recomputation (erf family)",
    design="7/C16")
+CHECKS["C19"] = dict(
+   category="exploration",
+   text="What is PROVED (QSP/Properties/C19.lean): the decision logic of the entry points as a total function of the option strings and stage outcomes - every error path ends in CompletionError / AngleFindingError / ValueError, phases are returned only through the self-check branch, mixed parity is AngleFindingError, unknown method / operator / measurement is ValueError, unknown coef_type is CompletionError. What is EXPLORED: the real entry points on ~50 infeasible polynomials of degree 1..30 (three kinds) with forced seeds (a return is judged by the C01 validator), mixed parity, a cross product of option strings against the model's prediction, and purity: byte-level snapshots of argument arrays and of Id / w / iX around random call sequences of 14 public functions, with replays under the same state of NumPy's global random generator.",
+   note="Trusted: Lean kernel (decision-logic theorems), model driver, harness. Python-level purity is a property of the runtime: it is decided by the snapshots on sampled call sequences, not by a theorem (DESIGN.md section 9).",
+   technique="Lean 4 proof of the decision logic + differential exploration (exception classes, snapshots, RNG-state replays)",
+   design="7/C19")
 NOT_APPLICABLE = {}
 
 def main():
